@@ -87,6 +87,7 @@ func fnExec(ctx *cmdContext, args map[string]any) (output respValue, err error) 
 	// process all of the queued commands, regardless if one errors
 	results := make([]any, 0, len(*ctx.cs.cmdQueue))
 	for _, cc := range *ctx.cs.cmdQueue {
+		verifPoint("exec.between", ctx.cs.id)
 		cc.execDsc = ctx.dsc
 		if cc.dsc.ds != ctx.cs.ds {
 			// an earlier queued SELECT changed the connection's database: the command
